@@ -459,6 +459,9 @@ func c05Exec(line string) string {
 	if strings.HasPrefix(line, "S ") {
 		return c05SelfExec(line)
 	}
+	if strings.HasPrefix(line, "G ") {
+		return c05SchemaExec(line)
+	}
 	if c05env == nil {
 		c05env = c05Open()
 	}
@@ -513,6 +516,7 @@ func c05Gen(tier string, seed uint64, out *bufio.Writer) {
 	g.rcBoundaryStream()
 	g.wideStream(tier)
 	c05SelfGen(g, tier)
+	c05SchemaGen(g, tier)
 	nh, nx := 1500, 300
 	if tier == "thorough" {
 		nh, nx = 30000, 4000
